@@ -21,6 +21,10 @@ THEOREMS = [
     "BeyondVerif.C05.kepler_equation_equivariant",
     "BeyondVerif.C05.hyperbolic_kepler_equation_solution_unique",
     "BeyondVerif.C05.kepler_solves_two_body",
+    "BeyondVerif.C05.propagate_history_independent",
+    "BeyondVerif.C05.propagate_overwrites_cache",
+    "BeyondVerif.C05.kpM2eLoop_exit",
+    "BeyondVerif.C05.kepler_anomaly_residual_partial",
     "BeyondVerif.C05.kepler_cart_compose",
     "BeyondVerif.C05.kepler_cart_inverse",
     "BeyondVerif.C05.kepler_cart_periodic",
@@ -40,7 +44,10 @@ LEVEL_TEXT = ("Lean theorems over R about the element update translated from kep
               "coordinates of the propagated state satisfy Newton's equation r'' = -mu r/|r|^3 (HasDerivAt, all t); "
               "J2 keeps a, e, i, is linear in dt with exactly the first-order secular rates (no node drift at cos i = 0, no perigee drift at 5 cos^2 i = 1, "
               "node rate = Earth's mean motion for the inclination returned by leo.sso), composes modulo 2 pi. Cartesian-level composition / inverse / "
-              "periodicity are proved from the form round trip as explicit hypotheses (C01). Differential correspondence against Orbit.propagate from every form.")
+              "periodicity are proved from the form round trip as explicit hypotheses (C01). The propagator object re-reads the orbit on every call (history independence); "
+              "the Newton loop of Form.M2E (translated start values / update / tolerance, loop shape checked) is left on convergence only, so a returned anomaly solves Kepler's equation "
+              "for the advanced mean anomaly within 2e-8 (1+e) (partial correctness; termination fails: open finding). Differential correspondence of the whole chain (update, M2E, "
+              "eccentric -> true -> cartesian, all in Lean) against Orbit.propagate from every form, on single calls and on call histories with in-place modifications.")
 LEVEL_NOTE = ("R -> double gap covered only by tolerance-bounded correspondence; form conversions (C01) enter as hypotheses; that advancing M at rate n solves the "
               "two-body ODE is proved for bound orbits in the orbital plane only (hyperbolic case: oracle, independent universal-variable propagator); Lean kernel + propext/Classical.choice/Quot.sound; "
               "py2lean translator and harness trusted")
@@ -48,7 +55,9 @@ TECHNIQUE = "Lean 4 proof (ring / field identities, floor arithmetic) over formu
 TRUSTED = [
     "harness/py2lean.py: translates Infos.n, Body.mu, the body of Kepler.propagate and J2.propagate and the sso inclination formula into Generated/Propag{F,R}.lean on every run; "
     "constants G, Earth mass/radius/J2 are read from the live beyond.constants module",
-    "lean/templates/Propag.tpl (hand-written glue: which element is updated, the modulo-2pi wrap of J2), tied by the correspondence run",
+    "lean/templates/Propag.tpl (hand-written glue: which element is updated, the modulo-2pi wrap of J2, the fuel-bounded Newton loop whose shape the extractor checks against "
+    "the source, the propagator object and its unconditional setter), tied by the correspondence run (single calls, slow-M2E inputs, histories)",
+    "harness mirror of the M2E loop (m2e_iters) is used only to SELECT inputs on which the loop runs long, never as an expected value; a 1 s SIGALRM watchdog decides 'does not return'",
     "numpy / libm double arithmetic vs R: tolerance 1e-9 (1 + n|dt|) relative",
 ]
 ASSUMPTIONS = ["cartesian-level theorems take the keplerian_mean <-> cartesian round trip (up to 2 pi k on M for e < 1) and the 2 pi-periodicity of mean -> cartesian as hypotheses hRT / hPer (C01)",
@@ -58,10 +67,16 @@ NOT_COVERED = ["two-body solution: proved for bound orbits in the orbital plane 
                "the hyperbolic counterpart, the constant rotation of the orbital plane into the frame, and that the library's mean -> cartesian conversion computes these coordinates (C01) are not formalised; "
                "agreement with the independent universal-variable solution (elliptic and hyperbolic, both time directions) is oracle only",
                "J2 on hyperbolic orbits: the code returns NaN silently (sqrt(1 - e^2)); secular J2 theory is defined for bound orbits only, the model reproduces the NaN, the theorems assume e < 1 where sqrt matters"]
-OPEN = ["hyperbolic M2E overflow (lead 18) is a floating-point phenomenon outside the R model: confirmed by the oracle at propagation level, recorded as known finding C05-hyperbolic-M2E-overflow; no kernel witness (Float is opaque to the kernel)"]
+OPEN = ["termination of Form.M2E is FALSE of the current code for bound orbits several revolutions away (known finding C05-m2e-no-return-ell, proposed_fixes/C05-m2e-no-return-ell.diff): "
+        "kepler_anomaly_residual_partial carries the hypothesis 'the loop exited'; no kernel witness (the cycle is a property of the double-precision iteration; Float is opaque to the kernel) - "
+        "the compiled model runs out of fuel on exactly the inputs on which the code does not return (correspondence result=no-return)",
+        "hyperbolic M2E overflow (lead 18): fixed in /repo by 31f549a; the oracle family hyperbolic-M2E-overflow stays alive (reverting the fix gives a VIOLATION)"]
 RULE = ("correspondence: random orbits (e log/uniform in [1e-4,0.95] and [1.01,10], perigee radius 6.6e6..5e7 m, every form the conic admits, dt in +-30 d quantised to ms) through "
         "Orbit.propagate (Kepler, J2) vs real mean->cartesian applied to the Lean model's elements on the real cartesian->mean elements; non-trivial = dt != 0; distinct = distinct request line. "
-        "oracle: element constancy, M advance, composition, inverse, periodicity, universal-variable two-body solution (1e-5), J2 secular rates from the textbook formula, polar / critical / sso")
+        "plus the Kepler inputs with the most Newton passes among 2e4 (2e5) domain candidates, plus call histories (propagate / modify in place: element, velocity scaling, form, date / propagate again, "
+        "timedelta and absolute dates) threaded through the model's propagator object; the model's cartesian state comes from the Lean chain with fuel 1e4. "
+        "oracle: element constancy, M advance, composition, inverse, periodicity, universal-variable two-body solution (1e-5), J2 secular rates from the textbook formula, polar / critical / sso, "
+        "Kepler-equation residual of Form.M2E over the domain, history = fresh orbit, every call under a watchdog (no return = failure), pinned regression inputs")
 
 REPO = core.REPO
 KEPLER_PY = os.path.join(REPO, "beyond", "propagators", "kepler.py")
@@ -90,8 +105,73 @@ def _sso_select(fn):
     raise py2lean.Untranslatable("leo.sso: `i is None` branch returning arccos(...) not found")
 
 
+
+FORMS_PY = os.path.join(REPO, "beyond", "orbits", "forms.py")
+CARGS = ["c0", "c1", "c2", "c3", "c4", "c5"]
+MU_CONSTS = {"body.µ": "mu", "body.μ": "mu", "body.mu": "mu", "body": "body_unused"}
+M2E_EDGE_SRC = "a, e, i, Ω, ω, M = coord\nE = cls.M2E(e, M)\nreturn np.array([a, e, i, Ω, ω, E], dtype=float)\n"
+
+
+def _rename(nodes, mapping):
+    class Rn(ast.NodeTransformer):
+        def visit_Name(self, n):
+            return ast.copy_location(ast.Name(id=mapping.get(n.id, n.id), ctx=n.ctx), n)
+
+        def visit_arg(self, n):
+            return ast.copy_location(ast.arg(arg=mapping.get(n.arg, n.arg), annotation=None), n)
+    return [ast.fix_missing_locations(Rn().visit(ast.parse(ast.unparse(x)).body[0] if isinstance(x, ast.stmt) else ast.parse(ast.unparse(x), mode="eval").body)) for x in nodes]
+
+
+def to_cart_chain(tree):
+    """The final `new.copy(form="cartesian")` of both propagators, translated from forms.py (own copy, prefix `kp`, so that C05
+    does not depend on the generation state of C01's model): the start value(s) and Newton update of `Form.M2E`, its tolerance,
+    and the edges keplerian_eccentric -> keplerian -> cartesian.  The loop of M2E must have exactly the shape
+    `X1 = next(X); while abs(X1 - X) >= tol: X = X1; X1 = next(X); return X1` — it is written with a fuel argument in the
+    template, where `none` means 'did not exit': the code's loop exits ONLY on convergence."""
+    fn = py2lean.find_function(tree, "Form.M2E")
+    body = [st for st in fn.body if not (isinstance(st, ast.Expr) and isinstance(st.value, ast.Constant))]
+    if not (len(body) == 2 and isinstance(body[0], ast.Assign) and body[0].targets[0].id == "tol" and isinstance(body[1], ast.If)):
+        raise py2lean.Untranslatable("M2E: unexpected top-level shape (an extra statement, e.g. an iteration cap?)")
+    tol = py2lean.translate_expr(body[0].value)
+    top = body[1]
+    test = py2lean.translate_expr(top.test)
+    out = {}
+    expected = ast.dump(ast.parse("X1 = next_X(X, e, M)\nwhile abs(X1 - X) >= tol:\n    X = X1\n    X1 = next_X(X, e, M)\nreturn X1\n"))
+    for tag, blk, var, nxt in (("E", top.body, "E", "next_E"), ("H", top.orelse, "H", "next_H")):
+        k = 0
+        while k < len(blk) and isinstance(blk[k], ast.If):
+            k += 1
+        if not (k >= 1 and len(blk) == k + 4 and isinstance(blk[k], ast.FunctionDef) and blk[k].name == nxt):
+            raise py2lean.Untranslatable(f"M2E: unexpected shape of the {tag} branch")
+        tr = py2lean.TrFn()
+        tr.defined |= {"e", "M"}
+        out["start" + tag] = tr.stmts(list(blk[:k]) + [ast.Return(value=ast.Name(id=var, ctx=ast.Load()))])
+        nf = blk[k]
+        if [a.arg for a in nf.args.args] != [var, "e", "M"] or len(nf.body) != 1 or not isinstance(nf.body[0], ast.Return):
+            raise py2lean.Untranslatable("M2E: unexpected Newton update function")
+        out["next" + tag] = py2lean.translate_expr(_rename([nf.body[0].value], {var: "X"})[0])
+        shape = ast.dump(ast.Module(body=_rename(blk[k + 1:], {var: "X", var + "1": "X1", nxt: "next_X"}), type_ignores=[]))
+        if shape != expected:
+            raise py2lean.Untranslatable("M2E: the iteration loop no longer has the modelled shape (exit only when |X1 - X| < tol)")
+    cls = py2lean.find_function(tree, "Form")
+    edge = next(f for f in cls.body if isinstance(f, ast.FunctionDef) and f.name == "_keplerian_mean_to_keplerian_eccentric")
+    stm = [st for st in edge.body if not (isinstance(st, ast.Expr) and isinstance(st.value, ast.Constant))]
+    if [ast.dump(x) for x in stm] != [ast.dump(x) for x in ast.parse(M2E_EDGE_SRC).body]:
+        raise py2lean.Untranslatable("_keplerian_mean_to_keplerian_eccentric no longer has the modelled shape (a,e,i,Ω,ω,M2E(e,M))")
+    parts = [f"/-- `tol` of `Form.M2E` -/\ndef kpM2eTol : R := {tol}\n",
+             "/-- start value of the Newton iteration in `Form.M2E` (every branch) -/\ndef kpM2eStart (e M : R) : R :=\n  if " + test + " then\n" +
+             py2lean.indent(out["startE"], 4) + "\n  else\n" + py2lean.indent(out["startH"], 4) + "\n",
+             "/-- `next_E` / `next_H` of `Form.M2E` -/\ndef kpM2eNext (X e M : R) : R :=\n  if " + test + " then " + out["nextE"] + "\n  else " + out["nextH"] + "\n",
+             "/-- the `while` test of `Form.M2E` -/\ndef kpM2eContinue {α : Type} (X1 X : R) (yes no : α) : α :=\n  if (absR (X1 - X)) ≥ kpM2eTol then yes else no\n"]
+    for py, ln in (("_keplerian_eccentric_to_keplerian", "kpEccToKepl"), ("_keplerian_to_cartesian", "kpKeplToCart")):
+        parts.append(f"/-- `Form.{py}` -/\n" + py2lean.translate_fn(FORMS_PY, "Form." + py, ln, vec_params={"coord": CARGS}, consts=MU_CONSTS,
+                                                                   extra_args=["mu"], tree=tree, ret_type="List R"))
+    return "\n".join(parts)
+
+
 def extract(ctx):
     from beyond import constants as K
+    ch0 = []
     consts = {"self.orbit.infos.n": "(meanMotion mu a)", "self.orbit[5]": "M", "Earth.r": "earthR", "Earth.J2": "earthJ2", "Earth.mu": "earthMu"}
     body = "/-- constants of beyond/constants.py (live module values) -/\n"
     body += f"def gravG : R := {_lit(K.G)}\n"
@@ -112,9 +192,10 @@ def extract(ctx):
     body += py2lean.translate_slice(LEO_PY, "sso", [], ["cst"], "ssoCst", consts=sso_consts) + "\n"
     body += "/-- leo.sso(a=a, e=e): the cosine of the returned inclination -/\n"
     body += py2lean.translate_return(LEO_PY, "sso", ["a", "e"], "ssoCosI", consts={"ω_e": "ssoOmegaE", "cst": "ssoCst"}, select=_sso_select) + "\n"
+    body += to_cart_chain(ast.parse(open(FORMS_PY).read())) + "\n"
     ch = py2lean.instantiate(core.LEAN, "Propag", body, "beyond/propagators/kepler.py, j2.py, orbits/statevector.py (Infos.n), constants.py, utils/leo.py (sso)")
     ch += instantiate.main()
-    return ch
+    return ch0 + ch
 
 
 # ---------------------------------------------------------------- generators
@@ -193,7 +274,133 @@ def mean_motion(mu, a):
     return math.sqrt(mu / abs(a) ** 3)
 
 
+
+def m2e_iters(e, M, cap=100000):
+    """number of passes of the Newton loop of Form.M2E (harness-side mirror, used ONLY to select inputs on which the
+    loop runs long — never as an expected value)"""
+    if e < 1:
+        X = M - e if (-math.pi < M < 0 or M > math.pi) else M + e
+        nx = lambda E: E + (M - E + e * math.sin(E)) / (1 - e * math.cos(E))
+    else:
+        X = m2e_start(e, M)
+        if abs(X) > 30:
+            X = math.copysign(math.log(2 * abs(M) / e + 1.8), M)
+        nx = lambda H: H + (M - e * math.sinh(H) + H) / (e * math.cosh(H) - 1)
+    try:
+        X1 = nx(X)
+        k = 0
+        while abs(X1 - X) >= 1e-8 and k < cap:
+            X, X1 = X1, nx(X1)
+            k += 1
+        return k
+    except (OverflowError, ZeroDivisionError):
+        return -1
+
+
+def slow_m2e_inputs(rng, ncand, ntop):
+    """Kepler inputs on which Form.M2E needs the most Newton passes: candidates from the whole domain, biased towards
+    e -> 0.95 and e -> 1+ and to several revolutions / far from perigee, ranked by the pass count of the mirror loop;
+    the `ntop` slowest plus a few of the moderately slow ones"""
+    cands = []
+    for _ in range(ncand):
+        conic = "ell" if rng.random() < 0.7 else "hyp"
+        elts = gen_elts(rng, conic)
+        if conic == "ell" and rng.random() < 0.8:
+            elts[1] = rng.uniform(0.6, 0.95)
+            elts[0] = rng.uniform(6.6e6, 9e6) / (1 - elts[1])
+        dt = q(rng.uniform(-30, 30) * DAY)
+        Mn = elts[5] + mean_motion(3.986009368e14, elts[0]) * dt
+        cands.append((m2e_iters(elts[1], Mn), elts, dt))
+    cands.sort(key=lambda c: -c[0])
+    pick = cands[:ntop] + rng.sample(cands[ntop:ntop * 20], min(ntop // 2, len(cands[ntop:ntop * 20])))
+    out = []
+    for its, elts, dt in pick:
+        conic = "ell" if elts[1] < 1 else "hyp"
+        t1 = q(rng.uniform(-1, 1) * abs(dt))
+        out.append({"propagator": "Kepler", "form": rng.choice(ELL_FORMS if conic == "ell" else HYP_FORMS), "frame": rng.choice(FRAMES),
+                    "mean_elements": elts, "dt": dt, "t1": t1, "t2": q(dt - t1), "periods": 1, "m2e_passes": its})
+    return out
+
+
+def gen_history_input(rng, prop):
+    """one Orbit object, one propagator object: propagations interleaved with in-place modifications of the orbit"""
+    conic = "ell" if (prop == "J2" or rng.random() < 0.7) else "hyp"
+    elts = gen_elts(rng, conic)
+    if conic == "hyp":
+        elts[1] = max(elts[1], 1.05)
+    else:
+        elts[1] = min(elts[1], 0.9)
+    forms = ELL_FORMS if conic == "ell" else HYP_FORMS
+    steps = [("P", q(rng.uniform(-3, 3) * DAY))]
+    for _ in range(rng.choice([1, 1, 2, 3])):
+        kind = rng.choice(["elem", "elem", "scale_v", "form", "date", "none"])
+        if kind == "elem":
+            steps.append(("elem", rng.randrange(6), 1 + rng.choice([-1, 1]) * rng.uniform(1e-3, 3e-3)))
+        elif kind == "scale_v":
+            steps.append(("scale_v", 1 + rng.choice([-1, 1]) * rng.uniform(1e-3, 3e-3)))
+        elif kind == "form":
+            steps.append(("form", rng.choice(forms)))
+        elif kind == "date":
+            steps.append(("date", q(rng.uniform(-1, 1) * DAY)))
+        steps.append((rng.choice(["P", "P", "Pabs"]), q(rng.uniform(-3, 3) * DAY) if rng.random() < 0.8 else 0.0))
+    return {"propagator": prop, "form": rng.choice(forms), "frame": rng.choice(FRAMES), "mean_elements": elts, "steps": steps}
+
+
+def run_history(inp):
+    """execute a history on the real API.  For every propagation: the result, the result of a FRESH orbit (new Orbit object,
+    new propagator object) built from the coordinates the orbit has at that moment, the mean elements of that state
+    (computed on a copy, the propagator is not touched) and the interval the code computes."""
+    from beyond.orbits import Orbit
+    from beyond.dates import timedelta
+    prop = inp["propagator"]
+    orb, d0 = make(inp["mean_elements"], inp["form"], inp["frame"], prop)
+    recs = []
+    changed = True
+    for st in inp["steps"]:
+        if st[0] in ("P", "Pabs"):
+            dt = st[1]
+            arg = timedelta(seconds=dt) if st[0] == "P" else orb.date + timedelta(seconds=dt)
+            snap = ([float(v) for v in orb], orb.date, orb.form.name)
+            x = [float(v) for v in Orbit(snap[0], snap[1], snap[2], inp["frame"], prop).copy(form="keplerian_mean")]
+            fresh_orb = Orbit(snap[0], snap[1], snap[2], inp["frame"], prop)
+            fresh = fresh_orb.propagate(arg)
+            res = orb.propagate(arg)
+            recs.append({"impl": [float(v) for v in res], "fresh": [float(v) for v in fresh], "mean": x, "dt": dt,
+                         "date_ok": res.date == snap[1] + timedelta(seconds=dt), "after_change": changed})
+            changed = False
+        elif st[0] == "elem":
+            orb[st[1]] = float(orb[st[1]]) * st[2]
+            changed = True
+        elif st[0] == "scale_v":
+            if orb.form.name == "cartesian":
+                orb[3:] = [float(v) * st[1] for v in orb[3:]]
+            else:
+                orb[0] = float(orb[0]) * st[1]
+            changed = True
+        elif st[0] == "form":
+            orb.form = st[1]
+            changed = True
+        elif st[0] == "date":
+            orb.date = orb.date + timedelta(seconds=st[1])
+            changed = True
+    return recs
+
+
 # ---------------------------------------------------------------- correspondence
+
+def parse_cart(tok):
+    """one `|`-separated field of a reply: six floats, or the token `fuel`"""
+    tok = tok.strip()
+    if tok in ("fuel", "bad-op") or not tok:
+        return tok or "bad-op"
+    return [b2f(x) for x in tok.split()]
+
+
+def cart_differs(impl, exp, rt):
+    sp = math.sqrt(sum(v * v for v in exp[:3]))
+    sv = math.sqrt(sum(v * v for v in exp[3:]))
+    return [j for j in range(6) if abs(impl[j] - exp[j]) > rt * (sp if j < 3 else sv)]
+
 
 def correspondence(ctx):
     from beyond.dates import timedelta
@@ -215,49 +422,114 @@ def correspondence(ctx):
         reqs.append(" ".join(["c05sso", f2b(a), f2b(e)]))
         meta.append(("sso", [math.cos(inc), TWO_PI / 365.256363004 / 86400], None, {"a": a, "e": e}))
         out.count(key=reqs[-1], kind="sso")
-    N = ctx.n(4000, 60000)
+    # single propagations: random cases, and the Kepler inputs on which the Newton loop of M2E runs longest
+    cases = []
+    N = ctx.n(3000, 50000)
     for k in range(N):
         prop = "Kepler" if k % 2 == 0 else "J2"
         conic = "ell" if (rng.random() < 0.55 or (prop == "J2" and rng.random() < 0.8)) else "hyp"
         elts = gen_elts(rng, conic)
         if rng.random() < 0.05:
             elts[2] = rng.choice([math.pi / 2, math.asin(math.sqrt(0.8)), math.pi - math.asin(math.sqrt(0.8))])
-        form = rng.choice(ELL_FORMS if conic == "ell" else HYP_FORMS)
-        frame = rng.choice(FRAMES)
-        dt = gen_dt(rng)
+        cases.append((prop, conic, elts, rng.choice(ELL_FORMS if conic == "ell" else HYP_FORMS), rng.choice(FRAMES), gen_dt(rng), "random", None))
+    for inp in slow_m2e_inputs(rng, ctx.n(20000, 200000), ctx.n(60, 600)):
+        conic = "ell" if inp["mean_elements"][1] < 1 else "hyp"
+        cases.append(("Kepler", conic, inp["mean_elements"], inp["form"], inp["frame"], inp["dt"], "slow-m2e", inp["m2e_passes"]))
+    for inp in PINNED:
+        cases.append(("Kepler", "ell", inp["mean_elements"], inp["form"], inp["frame"], inp["dt"], "pinned", None))
+    for prop, conic, elts, form, frame, dt, tag, passes in cases:
         orb, d0 = make(elts, form, frame, prop)
         date = d0 + timedelta(seconds=dt)
         dt_code = (date - d0).total_seconds()
         x0 = mean_of(orb)                      # what the orbit setter of the propagator computes
         mu = float(orb.frame.center.body.mu)
-        with _quiet():
-            impl = [float(v) for v in orb.propagate(date)]
+        try:
+            with _quiet(), time_limit():
+                impl = [float(v) for v in orb.propagate(date)]
+        except NoReturn as ex:
+            impl = "no-return:" + no_return_family(ex)
         reqs.append(" ".join([prop.lower(), f2b(mu)] + [f2b(v) for v in x0] + [f2b(dt_code)]))
         n = mean_motion(mu, x0[0]) if finite(x0) and x0[0] != 0 else float("nan")
-        meta.append((prop, impl, (date, frame, n, dt_code, conic), {"propagator": prop, "form": form, "frame": frame, "mean_elements": elts, "dt": dt}))
+        meta.append((prop, impl, (date, frame, n, dt_code, conic), {"propagator": prop, "form": form, "frame": frame, "mean_elements": elts, "dt": dt, "class": tag}))
         out.count(key=reqs[-1], nontrivial=dt != 0, kind=f"{prop}-{conic}", form=form, sign="dt<0" if dt < 0 else "dt>=0",
-                  span="|dt|>1d" if abs(dt) > DAY else "|dt|<=1d")
+                  span="|dt|>1d" if abs(dt) > DAY else "|dt|<=1d", cls=tag)
+        if passes is not None:
+            out.tally("m2e-passes=" + ("<=20" if passes <= 20 else "21-50" if passes <= 50 else "51-100" if passes <= 100 else ">100"))
         if abs(dt_code - dt) > 1e-9:
             out.fail("date-difference", "(date - orbit.date).total_seconds() differs from the requested interval", {"dt": dt}, observed=dt_code, expected=dt)
-    # raw increments of J2 (delta vector) against the same formula evaluated by numpy in the real module's namespace
-    replies = core.Driver().run(reqs)
+    # histories on one Orbit object / one propagator object
+    for k in range(ctx.n(250, 4000)):
+        prop = "Kepler" if k % 3 != 2 else "J2"
+        inp = gen_history_input(rng, prop)
+        try:
+            with _quiet(), time_limit(6.0):
+                recs = run_history(inp)
+        except NoReturn:
+            out.tally("history=no-return (skipped)")
+            continue
+        orb, _ = make(inp["mean_elements"], inp["form"], inp["frame"], prop)
+        mu = float(orb.frame.center.body.mu)
+        toks = ["hist", prop.lower(), f2b(mu)]
+        for r in recs:
+            toks += ["S"] + [f2b(v) for v in r["mean"]] + ["P", f2b(r["dt"])]
+        reqs.append(" ".join(toks))
+        meta.append(("hist", recs, mu, inp))
+        out.count(key=reqs[-1], kind=f"history-{prop}", propagations=len(recs),
+                  modified=sum(1 for st in inp["steps"] if st[0] not in ("P", "Pabs")))
+    replies = core.Driver(ID).run(reqs)
     with _quiet():
         for req, (kind, impl, aux, inp), rep in zip(reqs, meta, replies):
-            if rep in ("bad-op", "fuel"):
-                out.fail("c05-model-reject", "model rejected the request", inp, observed=impl, expected=rep)
+            if rep == "bad-op":
+                out.fail("c05-model-reject", "model rejected the request", inp, observed=str(impl)[:300], expected=rep)
                 continue
-            model = [b2f(s) for s in rep.split()]
             if kind == "const":
+                model = [b2f(x) for x in rep.split()]
                 if not all(core.close(a, b, rtol=1e-15) for a, b in zip(impl, model)):
                     out.fail("c05-constants", "regenerated constants differ from beyond.constants", "c05const", observed=impl, expected=model)
                 out.sample({"request": req, "impl": impl, "model": model})
                 continue
             if kind == "sso":
+                model = [b2f(x) for x in rep.split()]
                 if not all(core.close(x, y, rtol=1e-12, atol=1e-15) for x, y in zip(impl, model)):
                     out.fail("c05-sso", "cos(leo.sso(a, e)) differs from the translated formula", inp, observed=impl, expected=model)
                 continue
+            if kind == "hist":
+                fields = [parse_cart(t) for t in rep.split("|")]
+                if len(fields) != len(impl):
+                    out.fail("c05-history-shape", "model returned a different number of propagations", inp, observed=len(impl), expected=len(fields))
+                    continue
+                for idx, (r, mc) in enumerate(zip(impl, fields)):
+                    if mc == "fuel" or not isinstance(mc, list):
+                        out.fail("c05-history-fuel", "the model's M2E loop did not exit", inp, observed=r["impl"], expected=mc)
+                        break
+                    if not finite(r["impl"]) or not finite(mc):
+                        if finite(r["impl"]) != finite(mc):
+                            out.fail("c05-history-finiteness", "one of implementation / model is non-finite", inp, observed=r["impl"], expected=mc)
+                            break
+                        continue
+                    n = mean_motion(aux, r["mean"][0])
+                    if cart_differs(r["impl"], mc, 1e-9 * (1 + n * abs(r["dt"]))):
+                        out.fail(f"c05-history-{inp['propagator']}", f"propagation #{idx} of a history on one orbit / one propagator object differs from the model "
+                                 "(the model's setter re-reads the orbit on every call)", inp, observed=r["impl"], expected=mc, propagation=idx)
+                        break
+                continue
+            # single propagation: `elements | cartesian`
+            parts = rep.split("|")
+            model = [b2f(x) for x in parts[0].split()]
+            mcart = parse_cart(parts[1]) if len(parts) > 1 else "bad-op"
             date, frame, n, dt, conic = aux
-            exp = to_cart(model, date, frame) if finite(model) else [float("nan")] * 6
+            if isinstance(impl, str):
+                # the implementation did not return: the model agrees iff its loop does not exit either
+                out.tally("result=no-return")
+                if mcart != "fuel":
+                    out.fail(f"c05-{kind}-termination", "the implementation does not return, the model's M2E loop exits", inp, observed=impl, expected=mcart)
+                continue
+            try:
+                with time_limit():
+                    exp = to_cart(model, date, frame) if finite(model) else [float("nan")] * 6
+            except NoReturn:
+                out.fail(f"c05-{kind}-termination", "the implementation returned, but converting the model's elements does not", inp, observed=impl, expected="no-return")
+                continue
             fi, fe = finite(impl), finite(exp)
             out.tally("result=" + ("finite" if fi else "non-finite"))
             if fi != fe:
@@ -266,14 +538,67 @@ def correspondence(ctx):
             if not fi:
                 continue
             rt = 1e-9 * (1 + (n * abs(dt) if math.isfinite(n) else 0))
-            sp = math.sqrt(sum(v * v for v in exp[:3]))
-            sv = math.sqrt(sum(v * v for v in exp[3:]))
-            bad = [j for j in range(6) if abs(impl[j] - exp[j]) > rt * (sp if j < 3 else sv)]
+            bad = cart_differs(impl, exp, rt)
             if bad:
                 out.fail(f"c05-{kind}-{conic}", f"component {bad[0]} of {kind}.propagate differs from the Lean model (mean elements updated by the model, converted by the real code)",
                          inp, observed=impl, expected=exp)
-            out.sample({"request": req[:100] + "…", "impl": impl, "model_elements": model, "expected_cartesian": exp}, limit=3)
+            # the whole chain in the model: update + mean -> eccentric (M2E with fuel: exits only on convergence) -> keplerian -> cartesian
+            if not isinstance(mcart, list):
+                out.fail(f"c05-{kind}-cart-fuel", "the model's M2E loop did not exit within 10^4 passes", inp, observed=impl, expected=mcart)
+            elif not finite(mcart):
+                out.fail(f"c05-{kind}-cart-finiteness", "the model's cartesian state is non-finite, the implementation's is finite", inp, observed=impl, expected=mcart)
+            else:
+                bad = cart_differs(impl, mcart, rt)
+                if bad:
+                    out.fail(f"c05-{kind}-cart-{conic}", f"component {bad[0]} of {kind}.propagate differs from the Lean model of the whole chain "
+                             "(element update, M2E Newton loop until convergence, eccentric -> true -> cartesian)", inp, observed=impl, expected=mcart)
+            out.sample({"request": req[:100] + "…", "impl": impl, "model_elements": model, "model_cartesian": mcart}, limit=3)
     return out
+
+
+class NoReturn(Exception):
+    """a call into the library did not return within the time limit; carries the innermost library frame"""
+
+    def __init__(self, where, local):
+        super().__init__(where)
+        self.where, self.local = where, local
+
+
+class time_limit:
+    """SIGALRM watchdog around calls into the library (main thread): Form.M2E has an unbounded `while`"""
+
+    def __init__(self, seconds=1.0):
+        self.seconds = seconds
+
+    def __enter__(self):
+        import signal
+
+        def handler(signum, frame):
+            where, local, f = "?", {}, frame
+            while f is not None:
+                if f.f_code.co_filename.startswith(REPO):
+                    where = f"{os.path.relpath(f.f_code.co_filename, REPO)}:{f.f_code.co_name}"
+                    if f.f_code.co_name == "M2E":
+                        local = {k: float(v) for k, v in f.f_locals.items() if k in ("e", "M")}
+                        break
+                f = f.f_back
+            raise NoReturn(where, local)
+        self.old = signal.signal(signal.SIGALRM, handler)
+        signal.setitimer(signal.ITIMER_REAL, self.seconds)
+
+    def __exit__(self, *a):
+        import signal
+        signal.setitimer(signal.ITIMER_REAL, 0)
+        signal.signal(signal.SIGALRM, self.old)
+        return False
+
+
+def no_return_family(exc):
+    """family of a call that does not return, from the call site (and the conic read off the interrupted frame)"""
+    if exc.where.endswith(":M2E"):
+        e = exc.local.get("e", float("nan"))
+        return "m2e-no-return-" + ("ell" if e < 1 else "hyp")
+    return "no-return-" + exc.where.replace(os.sep, ".")
 
 
 class _quiet:
@@ -400,12 +725,46 @@ def oracle(ctx, widened):
         if not abs(val / ref - 1) < 1e-5:
             out.fail("constants-" + name, f"Earth.{name} is not the reference value", name, observed=val, expected=ref)
     with _quiet():
+        for inp in PINNED:
+            guarded(out, kepler_case if "steps" not in inp else history_case, dict(inp, pinned=True))
+        for inp in PINNED_M2E:
+            guarded(out, m2e_case, dict(inp, pinned=True))
         for _ in range(3000 if big else 300):
-            kepler_case(out, gen_kepler_input(rng))
+            guarded(out, kepler_case, gen_kepler_input(rng))
         for _ in range(3000 if big else 300):
-            j2_case(out, gen_j2_input(rng))
+            guarded(out, j2_case, gen_j2_input(rng))
+        # the inputs on which the Newton loop of Form.M2E runs longest (high e several revolutions on, hyperbolas far from perigee)
+        for inp in slow_m2e_inputs(rng, 200000 if big else 20000, 400 if big else 60):
+            out.tally("slow-m2e-passes=" + ("<=20" if inp["m2e_passes"] <= 20 else "21-50" if inp["m2e_passes"] <= 50 else ">50"))
+            guarded(out, kepler_case, inp)
+        for _ in range(100000 if big else 12000):
+            guarded(out, m2e_case, gen_m2e_input(rng))
+        # call histories on one Orbit object / one propagator object
+        for k in range(2000 if big else 200):
+            guarded(out, history_case, gen_history_input(rng, "Kepler" if k % 3 != 2 else "J2"))
     out.sample({"checks": "kepler: elements constant, M advance, compose, inverse, periodic, universal-variable; j2: a e i constant, secular rates, polar, critical, sso, compose"})
     return out
+
+
+def guarded(out, case, inp):
+    """run one oracle case under the watchdog: a call that does not return is a failing input"""
+    try:
+        with time_limit():
+            case(out, inp)
+    except NoReturn as ex:
+        out.count(key=("no-return", str(inp)), kind="no-return")
+        out.fail(no_return_family(ex), f"a call into the library does not return (interrupted after 1 s in {ex.where}, {ex.local}): "
+                 "Kepler/J2 propagation or Form.M2E hangs", inp, observed="no return", expected="a state", interrupted=ex.local)
+
+
+# regression inputs (in the property's domain) found by this oracle: the Newton iteration of the elliptic branch of Form.M2E enters a cycle
+PINNED = [
+    {"propagator": "Kepler", "form": "keplerian_mean", "frame": "EME2000", "mean_elements": [51033734.038639374, 0.8259756213938071, 1.1, 2.0, 3.0, 0.905527945313555],
+     "dt": 457387.328, "t1": 100000.0, "t2": 357387.328, "periods": 1},
+    {"propagator": "Kepler", "form": "cartesian", "frame": "EME2000", "mean_elements": [69834079.07487513, 0.8993920566380281, 1.1, 2.0, 3.0, 4.867360674833814],
+     "dt": -1637888.185, "t1": -637888.185, "t2": -1000000.0, "periods": 1},
+]
+PINNED_M2E = [{"m2e": True, "e": 0.8199884180444714, "M": -616.6022875435046}, {"m2e": True, "e": 0.8225565521236453, "M": 2143.4044989634876}]
 
 
 def gen_kepler_input(rng):
@@ -486,6 +845,55 @@ def kepler_case(out, inp):
             # the period is rounded to the microsecond by timedelta: allow the motion during k µs at perigee speed
             if not rel_err(per, c0) <= 3e-9 * (1 + TWO_PI * abs(kk)) * cond + abs(kk) * 1e-6 * n * 10 / (1 - e) ** 2:
                 out.fail("kepler-periodic", f"state after {kk} period(s) differs from the initial state", inp, observed=per, expected=c0)
+
+
+def gen_m2e_input(rng):
+    """(e, M) over the property's domain: M = M0 + n dt reaches thousands of radians for low orbits over 30 days"""
+    u = rng.random()
+    if u < 0.35:
+        e = rng.uniform(1e-4, 0.95)
+    elif u < 0.7:
+        e = rng.uniform(0.8, 0.95)
+    else:
+        e = 1 + math.exp(rng.uniform(math.log(0.01), math.log(9.0)))
+    M = rng.uniform(-40, 40) if rng.random() < 0.6 else rng.uniform(-3000, 3000)
+    return {"m2e": True, "e": e, "M": M}
+
+
+def m2e_case(out, inp):
+    """the anomaly returned by Form.M2E solves Kepler's equation (the loop exits on convergence only: after a last Newton step
+    below 1e-8 the residual is below ~1e-8 (1 + e cosh H))"""
+    from beyond.orbits.forms import Form
+    e, M = inp["e"], inp["M"]
+    X = float(Form.M2E(e, M))
+    out.count(key=("m2e", e, M), kind="m2e-" + ("ell" if e < 1 else "hyp"))
+    if not math.isfinite(X):
+        out.fail("m2e-nonfinite-" + ("ell" if e < 1 else ("hyp-overflow" if abs(m2e_start(e, M)) > 700 else "hyp")),
+                 "Form.M2E returns a non-finite anomaly", inp, observed=X)
+        return
+    res = (X - e * math.sin(X) - M) if e < 1 else (e * math.sinh(X) - X - M)
+    bound = 1e-7 * (1 + e) if e < 1 else 1e-7 * (e * math.cosh(X) + 1) + 1e-13 * abs(M)
+    if not abs(res) <= bound + 1e-13 * abs(M):
+        out.fail("m2e-kepler-equation-residual-" + ("ell" if e < 1 else "hyp"), "the anomaly returned by Form.M2E does not solve Kepler's equation "
+                 "(the Newton loop was left before convergence)", inp, observed={"anomaly": X, "residual": res}, expected={"|residual| <=": bound})
+
+
+def history_case(out, inp):
+    """propagating an orbit object that was propagated before and modified in place gives what a fresh orbit with the same
+    coordinates gives (the propagation starts from the CURRENT state), and the result carries the requested date"""
+    recs = run_history(inp)
+    prop = inp["propagator"]
+    for idx, r in enumerate(recs):
+        out.count(key=("history", prop, str(inp["steps"]), idx, tuple(inp["mean_elements"])), kind=f"history-{prop}", after_change=r["after_change"])
+        if not finite(r["impl"]) and not finite(r["fresh"]):
+            continue
+        if not finite(r["impl"]) or not finite(r["fresh"]) or rel_err(r["impl"], r["fresh"]) > 1e-12:
+            out.fail(f"{prop.lower()}-history-stale-state", f"propagation #{idx} of an orbit object (propagated before, modified in place) differs from the "
+                     "propagation of a fresh orbit with the same coordinates", inp, observed=r["impl"], expected=r["fresh"], propagation=idx)
+            return
+        if not r["date_ok"]:
+            out.fail(f"{prop.lower()}-history-date", f"propagation #{idx}: the result does not carry the requested date", inp, propagation=idx)
+            return
 
 
 def j2_rates(mu, a, e, i):
@@ -575,8 +983,15 @@ def replay(f):
     """re-evaluate every clause on the recorded failing input against the real API"""
     out = Outcome()
     inp = f.get("input", {})
+    if isinstance(inp, dict) and inp.get("m2e"):
+        with _quiet():
+            guarded(out, m2e_case, inp)
+        return out
     if not isinstance(inp, dict) or "mean_elements" not in inp:
         return oracle(core.Ctx(ID, "quick", 0), False)
     with _quiet():
-        (kepler_case if inp["propagator"] == "Kepler" else j2_case)(out, inp)
+        if "steps" in inp:
+            guarded(out, history_case, dict(inp, steps=[tuple(st) for st in inp["steps"]]))
+        else:
+            guarded(out, kepler_case if inp["propagator"] == "Kepler" else j2_case, inp)
     return out
